@@ -70,7 +70,7 @@ CHECKS = {
    note="'No longer retained' epochs are not probed (which old epochs are retained is implementation policy); only the not-yet-authorised direction is forged. ACK-before-success is a lower-bound check under concurrency (some KeyUpdate record of the caller acknowledged before each success).",
    technique="deterministic simulation: seeded schedule and fault exploration with reference decoding of protected records"),
  "C03": dict(level="fault_enumeration", design="§5 C03",
-   text="Every combination of honest role, version, credential type, verification policy and single authentication deviation (372 cases) is executed against a Byzantine peer: the real library with credentials or a signing key that deviate in exactly one way (wrong CA, name, validity window at the virtual clock, foreign private key, corrupted or mis-targeted signature through a custom crypto.Signer, the victim's chain hidden behind the rogue's own certificate, a signature forged from the public key under a mismatching scheme, missing certificate, wrong PSK or identity), a DTLS 1.3 client whose final flight is replaced by a forged ACK, and a scripted DTLS 1.3 server built on the independent reference implementation that leaves out Certificate and/or CertificateVerify, and a DTLS 1.2 client that stops after ClientKeyExchange and then offers the unfinished handshake's session for resumption on a second connection; on a clean link and under loss/duplication/reordering of the rogue's flights. An independent predicate over policy and deviation decides whether the honest side may succeed.",
+   text="Every combination of honest role, version, credential type, verification policy and single authentication deviation (376 cases) is executed against a Byzantine peer: the real library with credentials or a signing key that deviate in exactly one way (wrong CA, name, validity window at the virtual clock, foreign private key, corrupted or mis-targeted signature through a custom crypto.Signer, the victim's chain hidden behind the rogue's own certificate, a signature forged from the public key under a mismatching scheme, missing certificate, wrong PSK or identity), a DTLS 1.3 client whose final flight is replaced by a forged ACK, and a scripted DTLS 1.3 server built on the independent reference implementation that leaves out Certificate and/or CertificateVerify, and a DTLS 1.2 client that stops after ClientKeyExchange and then offers the unfinished handshake's session for resumption on a second connection; on a clean link and under loss/duplication/reordering of the rogue's flights. An independent predicate over policy and deviation decides whether the honest side may succeed.",
    note="Deviations that need a peer which omits a message yet computes a matching Finished are scripted for DTLS 1.3 servers only (refdtls key schedule); the DTLS 1.2 equivalents (no Certificate / no CertificateVerify from a scripted peer) are not generated, message removal by a man in the middle being C04's business. With VerifyClientCertIfGiven a client that presents nothing is accepted.",
    technique="deterministic simulation: enumeration of single authentication deviations by a Byzantine peer (real library with rogue credentials, or scripted on an independent reference implementation) against a policy predicate"),
  "C04": dict(level="fault_enumeration", design="§5 C04",
